@@ -273,13 +273,25 @@ func c13Gen(c *Ctx) {
 		if !c.Thorough && i%3 != 0 {
 			continue
 		}
-		emit("p7.all", "valid", s.blob)
-		forgeries(c, s, func(class string, b []byte) { emit("p7.all", class, b) })
+		// verify with the certificate the blob's signer entry names (the deepest path), and with a stranger's
+		emitP7 := func(class string, b []byte) {
+			if c.NFailures() >= 40 {
+				return
+			}
+			if s.right != nil {
+				c13Eval(c, Case{"op": "untrusted", "ep": "p7.all", "class": class + "/signer-cert", "cert": hx(s.right.Raw), "b": hx(b)})
+			}
+			if s.right == nil || c.Rng.Intn(4) == 0 {
+				c13Eval(c, Case{"op": "untrusted", "ep": "p7.all", "class": class + "/other-cert", "cert": hx(cert.Raw), "b": hx(b)})
+			}
+		}
+		emitP7("valid", s.blob)
+		forgeries(c, s, func(class string, b []byte) { emitP7(class, b) })
 		n := 0
 		mutateBlob(c, s.blob, func(class string, b []byte) {
 			n++
 			if c.Thorough || n%5 == 0 {
-				emit("p7.all", class, b)
+				emitP7(class, b)
 			}
 		})
 		// oversized / truncated DER lengths at the outermost levels
@@ -292,7 +304,7 @@ func c13Gen(c *Ctx) {
 
 func init() {
 	register("C13", &PropDef{
-		Rule:   "image entry points (Parse, Signatures, Hash, Bytes, Verify) and signature entry points (ParsePKCS7, ParseAuthenticode, both Verifys) in a sandboxed worker process (address-space limit, per-input timeout, TotalAlloc delta). Images: repository binaries and generated signed images under sweeps of e_lfanew, SizeOfOptionalHeader, NumberOfSections, NumberOfRvaAndSizes, SizeOfHeaders, section offsets/sizes (incl. overlap, 2^31, 2^32-1), certificate directory address/size beyond the file, WIN_CERTIFICATE dwLength (<8, huge), every ~2% truncation point, random header bytes. Signatures: library/fixture/CMS-shaped blobs under bit flips, per-leaf flips, structural DER edits, targeted forgeries (incl. dropped signed attributes), oversized and truncated lengths. Non-trivial: non-empty input; distinct = distinct inputs.",
+		Rule:   "image entry points (Parse, Signatures, Hash, Bytes, Verify) and signature entry points (ParsePKCS7, ParseAuthenticode, both Verifys) in a sandboxed worker process (address-space limit, per-input timeout, TotalAlloc delta). Images: repository binaries and generated signed images under sweeps of e_lfanew, SizeOfOptionalHeader, NumberOfSections, NumberOfRvaAndSizes, SizeOfHeaders, section offsets/sizes (incl. overlap, 2^31, 2^32-1), certificate directory address/size beyond the file, WIN_CERTIFICATE dwLength (<8, huge), every ~2% truncation point, random header bytes. Signatures: library/fixture/CMS-shaped blobs under bit flips, per-leaf flips, structural DER edits, targeted forgeries (incl. dropped signed attributes), oversized and truncated lengths; each verified with the certificate its signer entry names and, for a quarter, with a stranger's. Non-trivial: non-empty input; distinct = distinct inputs.",
 		Assume: []string{"allocation budget 64 bytes per input byte + 4 MiB; time limit 5 s per input", "wall-clock time and resident memory are runtime facts measured on the sampled inputs only"},
 		Eval:   c13Eval, Gen: c13Gen,
 	})
